@@ -48,6 +48,7 @@ impl MonitorSet {
                     let rt = raft::vote_resp_msg_type(t);
                     for r in new_msgs {
                         if r.get_msg_type() == rt && r.to == m.from && !r.reject {
+                            self.cov("C03 vote grants checked against the voter's log");
                             let mut cand = (m.log_term, m.index);
                             if self.inj("vote_restriction") && pre.last_index >= 2 {
                                 cand = (0, 0);
@@ -63,6 +64,7 @@ impl MonitorSet {
 
         // ---- C04 commit rule at the leader
         if self.f.commit_rule && is_leader && post.commit > pre.commit {
+            self.cov("C04 leader commit advances checked against durable images");
             let ci = post.commit;
             match post.term_at(ci) {
                 Some(t) if t == post.term => {}
@@ -88,6 +90,7 @@ impl MonitorSet {
         // ---- C05 leader append-only, committed prefix immutable
         if self.f.log_matching {
             if same_lead {
+                self.cov("C05 leader calls checked for append-only");
                 let lo = pre.first.max(post.first);
                 let hi = pre.last_index;
                 if post.last_index < pre.last_index {
@@ -165,6 +168,7 @@ impl MonitorSet {
         let id = post.id;
         for e in es {
             let mut idx = e.index;
+            self.cov("C07 committed entries handed out");
             if self.inj("ready_contract") && idx == 4 {
                 idx = 5; // observation corruption
             }
@@ -215,6 +219,7 @@ impl MonitorSet {
                     None => return,
                 };
                 let sidx = rv.snapshot.get_metadata().index;
+                self.cov("C07 Ready checked");
                 let nonempty = rv.hs.is_some() || rv.ss.is_some() || !rv.entries.is_empty() || sidx != 0
                     || !rv.committed_entries.is_empty() || !rv.messages.is_empty() || !rv.persisted_messages.is_empty()
                     || !rv.read_states.is_empty();
@@ -307,6 +312,7 @@ impl MonitorSet {
         }
         if let (Call::Ready, Some(rv)) = (c, &o.ready) {
             for (idx, ctx) in &rv.read_states {
+                self.cov("C08 read states delivered");
                 if let Some((n, bar, amb)) = self.reads.get(ctx).cloned() {
                     if amb {
                         continue;
